@@ -352,10 +352,10 @@ def run(ctx):
                 break
     tasks += [("q", ([f], 4 if ctx.thorough else 3)) for f in sq]
     tasks.append(("w", ctx.seed))
+    ctx.pmap(w_any, tasks, ambient=True)
     if ctx.thorough:
         step = 1 << 15
-        tasks += [("x", (lo, lo + step)) for lo in range(0, 1 << 24, step)]
-    ctx.pmap(w_any, tasks, ambient=True)
+        ctx.pmap(w_any, [("x", (lo, lo + step)) for lo in range(0, 1 << 24, step)])     # the full address sweep once (not repeated after the ambient calls)
     ctx.samples += [{"address": "ABCDEF", "DF17": F.with_case(build(17, 112, 0xABCDEF, 0x28), "l"),
                      "DF20": build(20, 112, 0xABCDEF, 0x55), "DF5": build(5, 56, 0xABCDEF, 3), "DF11_IC37": build(11, 56, 0xABCDEF, 5, 37)}]
     ctx.cov["addresses"] = len(addrs)
